@@ -54,15 +54,20 @@ def _job(spec):
         kw = {}
         if spec.get("mode") == "sim":
             kw = dict(simulate="num=%d" % spec["sim_num"], seed=spec.get("seed", 1))
-        result = tlc.run("Mab", c, emit=True, invariants=spec.get("invariants", ALL_INVARIANTS),
+        module = spec.get("module", "Mab")
+        result = tlc.run(module, c, emit=True, invariants=spec.get("invariants", ALL_INVARIANTS),
                          properties=spec.get("properties", ALL_PROPERTIES), timeout=spec.get("timeout", 900), **kw)
         out["tlc"] = {"states": result.states, "generated": result.generated, "edges": len(result.edges),
                       "wall": result.wall, "violated": result.violated, "trace": result.trace[:80]}
         if result.violated:
             return out
         for bkw in spec["bindings"]:
-            binding = cf.CFBinding(c["LP"], **bkw)
-            replay = cf.Replay(binding, feat=c["Feat"], checks=spec.get("checks", cf.ALL_CHECKS),
+            if module == "Lin":
+                from harness import lin
+                binding = lin.LinBinding(lam=c["Lambda"], scale=c.get("Scaled", False), **bkw)
+            else:
+                binding = cf.CFBinding(c["LP"], **bkw)
+            replay = cf.Replay(binding, feat=c.get("Feat", {}), checks=spec.get("checks", cf.ALL_CHECKS),
                                clone_every=spec.get("clone_every", 1))
             start = time.time()
             replay.run(result.edges)
@@ -71,7 +76,7 @@ def _job(spec):
             for finding in replay.findings:
                 finding["job"] = spec["name"]
                 finding["consts"] = {k: _plain(v) for k, v in c.items()}
-                finding["engine"] = "cf"
+                finding["engine"] = "lin" if module == "Lin" else "cf"
                 out["findings"].append(dict(finding))
     except tlc.TLCError as error:
         out["error"] = "TLC: %s" % error
@@ -105,7 +110,7 @@ def run_jobs(report, jobs, keep, procs=None):
                             % (t["violated"], spec["name"], "\n".join(t["trace"])))
         report.states += t["states"]
         report.transitions += t["generated"]
-        report.tlc_runs.append({"model": "Mab/" + spec["name"], "mode": spec.get("mode", "bfs"),
+        report.tlc_runs.append({"model": spec.get("module", "Mab") + "/" + spec["name"], "mode": spec.get("mode", "bfs"),
                                 "states": t["states"], "transitions": t["generated"], "edges_emitted": t["edges"],
                                 "invariants": spec.get("invariants", ALL_INVARIANTS),
                                 "properties": spec.get("properties", ALL_PROPERTIES), "wall_s": round(t["wall"], 1)})
@@ -159,3 +164,28 @@ def replay_finding(finding):
         binding.call(mab, label, c.get("Feat"))
     outcome, value = binding.call(mab, finding["label"], c.get("Feat")) if finding["label"].get("op") != "init" else ("ok", None)
     return outcome, value, mab
+
+
+LIN_INVARIANTS = ["Inv_C02_NormalEq", "Inv_C02_Solves", "Inv_C02_Unobserved", "Inv_C08_Keys"]
+LIN_PROPERTIES = ["Prop_C10_ReadOnly", "Prop_C07_FitIsFresh"]
+
+
+def lin_consts(**over):
+    c = dict(Labels={"a", "b", "c"}, InitArms=["a", "b"], D=2, Ctx={(0, 1), (1, 0), (1, 1), (2, -1)}, Rewards={-2, 1},
+             Lambda=(1, 2), MaxBatch=1, MaxHist=3, MaxDepth=3,
+             Ops={"fit", "partial_fit", "add_arm", "remove_arm", "predict_expectations", "predict"},
+             QuerySets={((1, 1),), ((0, 1), (2, -1)), ((1, 0), (1, 1), (2, -1))}, Scaled=False, Dev=set())
+    c.update(over)
+    return c
+
+
+def lin_negative(report, dev, expect, over=None):
+    c = lin_consts(**dict(over or {}, Dev={dev}))
+    result = tlc.run("Lin", c, invariants=LIN_INVARIANTS, properties=LIN_PROPERTIES, timeout=300, workers=4)
+    report.states += result.states
+    report.transitions += result.generated
+    ok = result.violated is not None
+    report.negatives.append({"deviation": dev, "module": "Lin", "expected_counterexample_to": expect,
+                             "tlc_reported": result.violated, "ok": ok})
+    if not ok:
+        raise Machinery("deviation %s (Lin) produced no counterexample" % dev)
